@@ -370,6 +370,37 @@ def sweep(ctx: Ctx):
                         if not np.allclose(got, fresh, rtol=1e-12, atol=0, equal_nan=True):
                             first.setdefault((cname, "reuse"), (p, f"{'InverseRTransform.' if wrap else ''}{m}: buffer refilled in place from {a.tolist()} to {b_.tolist()}",
                                                                 float(got[0]), float(fresh[0])))
+    # the SAME argument array passed to one method and then, untouched by the caller, to another: every answer must be that of
+    # the points the caller holds (history: m1(buf); m2(buf) versus m2 on a fresh copy)
+    for cname in CLASSES:
+        rr = __import__("random").Random(f"twice:{cname}")
+        p, (lo, hi), _ = sample_params(cname, rr)
+        if cname == "HyperbolicRTransform":
+            hi = 0.05 / p["b"]
+        span = hi - lo
+        for wrap in (False, True):
+            mk = (lambda: RT.InverseRTransform(make_tf(cname, p, True))) if wrap else (lambda: make_tf(cname, p, True))  # noqa: E731
+            x1 = np.array([lo + span * f for f in (0.30, 0.45, 0.60)])
+            with warnings.catch_warnings():
+                warnings.simplefilter("ignore")
+                with np.errstate(all="ignore"):
+                    r1 = make_tf(cname, p, True).transform(x1.copy())
+                    for grp in (("transform", "deriv", "deriv2", "deriv3"), ("inverse", "deriv_inverse", "deriv2_inverse", "deriv3_inverse")):
+                        a = x1 if (grp[0] == "transform") != wrap else r1
+                        for m1 in grp:
+                            for m2 in grp:
+                                try:
+                                    obj, buf = mk(), a.copy()
+                                    getattr(obj, m1)(buf)
+                                    got = np.asarray(getattr(obj, m2)(buf), dtype=float)
+                                    fresh = np.asarray(getattr(mk(), m2)(a.copy()), dtype=float)
+                                except Exception as e:  # noqa: BLE001
+                                    first.setdefault((cname, "reuse"), (p, f"{'InverseRTransform.' if wrap else ''}{m1} then {m2} on the same array {a.tolist()}", type(e).__name__, "values of a fresh array"))
+                                    continue
+                                npts += 1
+                                if not np.allclose(got, fresh, rtol=1e-12, atol=0, equal_nan=True):
+                                    first.setdefault((cname, "reuse"), (p, f"{'InverseRTransform.' if wrap else ''}{m1}(a) then {m2}(a) on the same array a = {a.tolist()} (a is now {buf.tolist()})",
+                                                                        float(got[0]), float(fresh[0])))
     # infinity trimming replaces ONLY infinities (finite values, however large, are left alone), scalars and arrays
     tfc = make_tf("BeckeRTransform", dict(rmin=0.0, R=1.0), True)
     arr = np.array([-np.inf, -1e300, -1e17, -1.0, 0.0, 2.5, 1e16, 3e16, 1e200, np.inf])
